@@ -13,7 +13,7 @@
     which has no production caller (theorem [reassign_has_no_live_caller], tied to the call graph of the
     source by the translator). *)
 From Coq Require Import List ZArith Bool String.
-From Paloma Require Import Cons.Queue Cons.QueueProofs Skyway.Confirms Skyway.ConfirmsProofs.
+From Paloma Require Import Cons.Queue Cons.QueueProofs Cons.QueueAlias Skyway.Confirms Skyway.ConfirmsProofs Skyway.ConfirmsRedeploy.
 From Paloma Require Gen.C06.
 Import ListNotations.
 Open Scope Z_scope.
@@ -107,15 +107,15 @@ Print Assumptions reassign_has_no_live_caller.
 
 (** ---- second round ---- *)
 
-(** Clearing is total.  After an accepted UpdateBatchGasEstimate (estimate elected), cancel, executed or time-out of
-    batch (nonce, contract), NO confirmation of that batch is left in the store — the statement ranges over the whole
+(** Clearing is total.  After an accepted UpdateBatchGasEstimate (estimate elected), cancel, executed, time-out or
+    renewal for a new compass of batch (nonce, contract), NO confirmation of that batch is left in the store — the statement ranges over the whole
     confirmation store of every history, there is no bound on how many confirmations a batch had collected.
     ([delete_confirms] is a filter over all stored confirmations only as long as the translator finds nothing in
     DeleteBatchConfirms / GetBatchConfirmByNonceAndTokenContract / IterateBatchConfirmByNonceAndTokenContract that can
     end the listing early; see [confirm_readers_read_everything].) *)
 Theorem no_confirm_survives_clearing :
   forall (Sig : Type) (verify : cbytes -> Sig -> Z -> bool) (ops : list (cop Sig)) (o : cop Sig) (nonce contract : Z),
-  (exists e, o = BUpdateEstimate nonce contract e) \/ o = BRemove nonce contract ->
+  (exists e, o = BUpdateEstimate nonce contract e) \/ o = BRemove nonce contract \/ (exists b', o = BRebody nonce contract b') ->
   snd (cstep Sig verify (crun Sig verify ops) o) = COk ->
   forall c, In c (cs_confirms (fst (cstep Sig verify (crun Sig verify ops) o))) -> of_batch nonce contract c = false.
 Proof. exact no_confirm_survives_clearing_all. Qed.
@@ -143,6 +143,39 @@ Theorem unbonded_cannot_confirm :
 Proof. exact unbonded_cannot_confirm_all. Qed.
 Print Assumptions unbonded_cannot_confirm.
 
+(** A compass redeploy while batches are open (round one's second assumption).  The checkpoint covers the compass id
+    (part of [b_body]) and ConfirmBatch verifies against the id of the chain's CURRENT compass.  [BRebody] is what
+    refreshOpenBatchCheckpoints does to one open batch when the compass of its chain changes (bytes to sign renewed,
+    confirmations deleted), [redeploy_ops] its loop over the batches of the chain.  All the theorems above hold for
+    histories with [BRebody] steps; here: from ANY state, after the loop no confirmation of any batch of the chain is
+    left (no bound on batches or confirmations), every confirmation that belongs to no batch of the chain is still
+    there, nothing appears, no batch is lost. *)
+Theorem redeploy_clears_all :
+  forall (Sig : Type) (verify : cbytes -> Sig -> Z -> bool) (s : cstate Sig) (chain : Z) (newbody : batch -> Z),
+  let s' := crun_from Sig verify s (redeploy_ops Sig (cs_batches s) chain newbody) in
+  (forall c b, In c (cs_confirms s') -> In b (cs_batches s) -> b_chain b = chain ->
+     of_batch (b_nonce b) (b_contract b) c = false) /\
+  (forall c, In c (cs_confirms s) ->
+     (forall b, In b (cs_batches s) -> b_chain b = chain -> of_batch (b_nonce b) (b_contract b) c = false) ->
+     In c (cs_confirms s')) /\
+  (forall c, In c (cs_confirms s') -> In c (cs_confirms s)) /\
+  List.length (cs_batches s') = List.length (cs_batches s).
+Proof. exact redeploy_clears_all_proof. Qed.
+Print Assumptions redeploy_clears_all.
+
+(** ... and why the renewal is needed (the code before fix "refresh open batches when the compass changes"): with the
+    compass id switched and the batch left alone, a stored confirmation that verified does not verify against the
+    checkpoint ConfirmBatch now computes; the renewal removes it.  Witness replayed on the real keepers
+    (harness/c06 scriptedRedeploy; known finding C06:compass-redeploy-keeps-open-batch-confirms on a tree without the fix). *)
+Theorem redeploy_without_refresh_refuted :
+  exists (s : cstate icsig) b c body',
+    In b (cs_batches s) /\ In c (cs_confirms s) /\ of_batch (b_nonce b) (b_contract b) c = true /\
+    icverify (checkpoint b) (cf_sig c) (cf_signer c) = true /\
+    icverify (checkpoint (with_body b body')) (cf_sig c) (cf_signer c) = false /\
+    cs_confirms (fst (cstep icsig icverify s (BRebody (b_nonce b) (b_contract b) body'))) = [].
+Proof. exact redeploy_without_refresh_refuted_witness. Qed.
+Print Assumptions redeploy_without_refresh_refuted.
+
 (** What the translator found in the source about the readers the clearing and duplicate checks depend on: none of the
     functions of skyway's confirmation store reachable from DeleteBatchConfirms and ConfirmBatch, nor the consensus
     queue's AddSignature, contains a construct that can end its scan early or bound it (a limit, a break that is not
@@ -155,6 +188,21 @@ Theorem confirm_readers_read_everything :
   Gen.C06.confirm_requires_bonded_or_unbonding = true.
 Proof. exact (conj eq_refl (conj eq_refl (conj eq_refl (conj eq_refl (conj eq_refl eq_refl))))). Qed.
 Print Assumptions confirm_readers_read_everything.
+
+(** "A key appears at most once per item" holds for keys as the code identifies them — the registered Pubkey BLOB
+    ([one_sig_per_validator_and_key], every [verify]).  It does NOT hold for the key that actually signs: the EVM
+    verifier takes the last 20 bytes of the blob ([averify] = the ideal scheme behind that projection; blob id =
+    1000 * EVM key id + encoding variant), so two validators that register one EVM key under two encodings both sign
+    the same message with it, in a live history.  Refutation witness, replayed on the real keepers on every run;
+    recorded as known finding C06:queue-key-aliased-by-pubkey-encoding (skyway's ConfirmBatch is not affected: it
+    compares parsed addresses, [one_confirm_per_validator_and_key]). *)
+Theorem key_unique_up_to_encoding_refuted :
+  Forall live_op alias_ops /\
+  exists it e1 e2, In it (st_items (run isig averify alias_ops)) /\ In e1 (it_sigs it) /\ In e2 (it_sigs it) /\
+    se_val e1 <> se_val e2 /\ se_key e1 <> se_key e2 /\ se_key e1 / 1000 = se_key e2 / 1000 /\
+    averify (sign_bytes it) (se_sig e1) (se_key e1) = true /\ averify (sign_bytes it) (se_sig e2) (se_key e2) = true.
+Proof. exact key_unique_up_to_encoding_refuted_witness. Qed.
+Print Assumptions key_unique_up_to_encoding_refuted.
 
 (** valset.GetSigningKey (the model's [lookup_key]: chain and named address of one of the validator's accounts) has a
     single key-returning exit and it has compared chain type, chain reference AND address with the arguments: there is
